@@ -245,7 +245,7 @@ struct Mutation {
     byte: usize,
     bit: u8,
 }
-const N_MUT: u64 = 12;
+const N_MUT: u64 = 13;
 
 impl Mutation {
     fn gen_(rng: &mut Rng, kind: u64) -> Self {
@@ -256,6 +256,7 @@ impl Mutation {
             4 => (32, rng.below(7)),
             5 => (rng.range(33, 62) as usize, rng.below(8)),
             6 => (63, rng.below(8)),
+            12 => (rng.below(64) as usize, rng.below(8)),
             _ => (0, 0),
         };
         Mutation { kind, byte, bit: bit as u8 }
@@ -330,6 +331,16 @@ impl Mutation {
                     x[0] = 1;
                 }
                 ("r top byte replaced", x, false)
+            }
+            12 => {
+                // r kept (the x coordinate of a curve point), s replaced by a value in the
+                // window (n/2, 2^255) - the only high-s values the 64-byte form can carry.
+                // Whatever key a backend recovers from it must verify it.
+                let half = b::shr1(&c.n());
+                let s2 = b::add_u64(&half, 1 + (self.byte as u64) * 8 + self.bit as u64);
+                x[32..].copy_from_slice(&s2);
+                x[32] = (x[32] & 0x7f) | if self.bit & 1 == 1 { 0x80 } else { 0 };
+                ("s replaced by a value in the window (n/2, 2^255)", x, false)
             }
             _ => {
                 x[33] = !x[33];
@@ -1338,7 +1349,7 @@ pub fn run(cfg: &Cfg) -> Report {
         }
         rep
     });
-    rep.rule = "secp256k1/secp256r1: keys {1,2,n-1,random} x messages {0,ff..ff,random}: library signature normalised (s in [1,n/2] after removing the parity bit), accepted by the k256/p256 crate's verifier, recovers the key derived independently with k256/p256, verifies (k1), does not recover/verify for another message; one of 12 mutations (parity flip, bit flip per byte class of r and s, s->n-s with/without parity flip, swap, ...) must not recover or verify against the signer's key, and a key recovered from an in-range signature verifies it. ed25519: 27 classes (valid, bit flips in R/s/A/message, s+L, s=0/L/L-1, small-order R and A incl. non-canonical encodings and triples accepted only by non-strict verification, undecodable A, ...) x message lengths 0..300: verdict == dalek verify_strict on the same triple. VM: scripts of 8 ECK1/ECR1/ED19 cases (operands in script data, destination pre-filled with 0xA5, LOGD + LOG $err): $err and the 64 bytes equal the library call's result (key and 0, or zeroes and 1); ED19 length register 0 means 32. class = (curve, operation, mutation class, outcome)".into();
+    rep.rule = "secp256k1/secp256r1: keys {1,2,n-1,random} x messages {0,ff..ff,random}: library signature normalised (s in [1,n/2] after removing the parity bit), accepted by the k256/p256 crate's verifier, recovers the key derived independently with k256/p256, verifies (k1), does not recover/verify for another message; one of 13 mutations (parity flip, bit flip per byte class of r and s, s->n-s with/without parity flip, swap, s replaced by a value in the high-s window (n/2, 2^255), ...) must not recover or verify against the signer's key, and a key recovered from an in-range signature verifies it. ed25519: 27 classes (valid, bit flips in R/s/A/message, s+L, s=0/L/L-1, small-order R and A incl. non-canonical encodings and triples accepted only by non-strict verification, undecodable A, ...) x message lengths 0..300: verdict == dalek verify_strict on the same triple. VM: scripts of 8 ECK1/ECR1/ED19 cases (operands in script data, destination pre-filled with 0xA5, LOGD + LOG $err): $err and the 64 bytes equal the library call's result (key and 0, or zeroes and 1); ED19 length register 0 means 32. class = (curve, operation, mutation class, outcome)".into();
     rep.assume("k256 / p256 crates (used directly) as the reference for public-key derivation and plain ECDSA verification; ed25519-dalek verify_strict as the Ed25519 reference (the property names it)");
     rep.assume("the (r, n-s, parity flipped) twin of a signature is not judged here (acceptance of high s is C16's subject)");
     rep.note("the library has no secp256r1 verify; r1 signatures are verified with the p256 crate");
